@@ -586,4 +586,20 @@ def textStableB (S : Schema) : Bool :=
 def leafOkB (S : Schema) : Bool :=
   (List.range S.nodes.size).all (fun t => !(S.nodeType t).isLeaf || (S.dfa t).accepts [])
 
+/-- the automata are well formed (every edge leads to a state of the automaton and is labelled with a node
+    type of the schema, every node type has a start state) and fillings never fail: from every state the
+    content can be completed with generatable nodes (`fill_before(Fragment.empty, True)` is not `None`), and
+    every generatable node type can be created and filled (`create_and_fill()` is not `None`).  Where this
+    fails the real parser dies with AttributeError on a `None` (e.g. content `a+ text`: `<x><a></a></x>`). -/
+def fillOkB (S : Schema) : Bool :=
+  decide (S.top < S.nodes.size) &&
+  (List.range S.nodes.size).all (fun t =>
+    decide (0 < (S.dfa t).size) &&
+    (!S.generatable t || (match createAndFill S (S.nodes.size + 1) t with
+      | .ok _ => true
+      | .error _ => false)) &&
+    (List.range (S.dfa t).size).all (fun q =>
+      (fillBefore (S.dfa t) S.generatable q [] true).isSome &&
+      ((S.dfa t).edgesOf q).all (fun e => decide (e.2 < (S.dfa t).size) && decide (e.1 < S.nodes.size))))
+
 end PM.FromDom
